@@ -60,11 +60,11 @@ Definition sub_view (s : slice) (off : nat) (r : res (option slice)) : Prop :=
   r = Ok None \/ exists n, r = Ok (Some (view_at (arr s) off n)) /\ (off + n <= len s)%nat.
 
 Theorem views_are_subslices c s f w :
-  wf s -> k_vlan_short (view s) = false -> parse c s = Ok f ->
+  wf s -> parse c s = Ok f ->
   sub_view s (view_off f w) (view_get s f w).
 Proof.
-  intros Hwf Hk Hp. pose proof (parse_ok_len _ _ _ Hp) as Hlen.
-  pose proof (parse_offsets_partial c s Hwf Hk) as H. rewrite Hp in H. cbn [post] in H.
+  intros Hwf Hp. pose proof (parse_ok_len _ _ _ Hp) as Hlen.
+  pose proof (parse_offsets c s Hwf) as H. rewrite Hp in H. cbn [post] in H.
   destruct H as (H4 & H6 & HU & HT & HP).
   assert (HA : forall off, (off <= len s)%nat -> sub_view s off (acc_at s off)).
   { intros off Ho. unfold sub_view, acc_at. destruct (Nat.eqb off 0); [left; reflexivity|].
@@ -129,6 +129,7 @@ Proof.
   unfold parse.
   apply post_bind; intros _ _. apply post_bind; intros smac _. apply post_bind; intros dmac _.
   apply post_bind; intros hl _.
+  destruct (Nat.ltb (len s) hl); [exact I|].
   destruct (is_unicast_mac smac) eqn:Hu; cbn [negb]; [|cbn [post]; intros m ip; cbn; discriminate].
   apply post_bind; intros et _.
   destruct (et <? 1536); [cbn [post]; intros m ip; cbn; discriminate|].
